@@ -64,6 +64,7 @@ class Bad:
         self.setup: Optional[Callable[[], Any]] = None      # a legal call made first (e.g. one that consumes a free node)
         self.followup: Optional[Callable[[], Any]] = None   # a legal call made after the refusal (e.g. the retry without the offending value)
         self.followup_what = ''
+        self.followup_check: Optional[Callable[[Any], Optional[str]]] = None   # judges what the follow-up returned
 
 
 def resolve_bad(root: Any, other: Any, op: dict) -> Bad:
@@ -224,6 +225,38 @@ def resolve_bad(root: Any, other: Any, op: dict) -> Bad:
             b.call = lambda: models.Custom.from_children(models.Date.from_value(datetime.date(2000, 1, 1)), models.EscapedString.from_value('t'), [first, node])
         else:
             b.call = lambda: models.Custom.from_value(datetime.date(2000, 1, 1), 't', [decimal.Decimal(1), node])
+        return b
+    if k == 'ctor-later-attached':
+        # a constructor refused because of a later argument must leave the free arguments in front of it usable
+        cur = _find_attached(other if op.get('src_other') else root, ['CURRENCY'], op.get('sel', 0))
+        num = OPS._donor({'k': 'number_expr', 't': op.get('num', '7')})
+        text0 = O.print_text(num)
+        b.cls, b.must_raise, b.key = 'a:attached', True, 'attached:constructor-later-argument'
+        b.what = f'Amount.from_children(free NumberExpr {text0!r}, attached Currency)'
+        b.nontrivial = True
+        b.call = lambda: models.Amount.from_children(num, cur)
+        b.followup = lambda: models.Amount.from_children(num, models.Currency.from_value('USD'))
+        b.followup_what = 'Amount.from_children(the same free NumberExpr, a fresh Currency)'
+        b.followup_check = lambda r: None if O.print_text(r) == text0 + ' USD' and not O.invariants(r, whole_store=True) else f'built {O.print_text(r)!r}, expected {text0 + " USD"!r}'
+        return b
+    if k == 'ctor-duplicate':
+        import datetime
+        usd = models.Currency.from_value('USD')
+        s_ = models.EscapedString.from_value('x')
+        which = op.get('which', 0) % 3
+        b.cls, b.must_raise, b.key = 'a:attached', True, f'duplicate-in-constructor:{which}'
+        b.nontrivial = True
+        d = models.Date.from_value(datetime.date(2000, 1, 1))
+        if which == 0:
+            b.what = 'Open.from_children(date, account, currencies=[usd, usd]) with one Currency object twice'
+            b.call = lambda: models.Open.from_children(d, models.Account.from_value('Assets:Foo'), [usd, usd])
+        elif which == 1:
+            b.what = 'Transaction.from_children(date, flag, payee=s, narration=s, ...) with one string object twice'
+            b.call = lambda: models.Transaction.from_children(d, models.TransactionFlag.from_value('*'), s_, s_, (), ())
+        else:
+            c = BlockComment.from_value('note')
+            b.what = 'File.from_children([c, c]) with one comment object twice'
+            b.call = lambda: models.File.from_children([c, c])
         return b
     if k == 'from_children':
         node = _find_attached(root, ['number_expr'], op.get('sel', 0))
@@ -424,8 +457,9 @@ def run_case(case: dict) -> Result:
             before, before2 = O.Snapshot(root), O.Snapshot(other)
             vbefore = public_views(root) + public_views(other)
             raised: Optional[BaseException] = None
+            built: Any = None
             try:
-                b.call()
+                built = b.call()
             except Exception as e:  # noqa: BLE001
                 raised = e
             classes.add(b.cls)
@@ -445,19 +479,34 @@ def run_case(case: dict) -> Result:
                     # the history goes on: a legal call with the values the refused call did not object to
                     classes.add('retry-after-refusal')
                     try:
-                        b.followup()
-                    except common.REFUSAL:
+                        ret = b.followup()
+                    except common.REFUSAL as e:
                         d = before.diff(O.Snapshot(root))
                         if d:
                             res.bad(f'changed-after-refusal:retry:{b.key}', f'{b.followup_what} after the refusal raised and changed the document: {d}')
+                        elif b.followup_check is not None:
+                            res.bad(f'retry-refused:{b.key}', f'{b.followup_what} after the refused {b.what} was refused too ({e!r}): the refused call consumed its free argument')
                     except Exception as e:  # noqa: BLE001
                         res.bad(f'retry-crashed:{b.key}:{type(e).__name__}', f'{b.followup_what} after the refused {b.what} raised {e!r}')
                     else:
                         inv = O.invariants(root)
                         if inv:
                             res.bad(f'retry-corrupts:{b.key}', f'{b.followup_what} after the refused {b.what} was accepted and left {inv[:2]}; printed {O.print_text(root)!r}')
+                        elif b.followup_check is not None:
+                            verdict = b.followup_check(ret)
+                            if verdict:
+                                res.bad(f'retry-wrong:{b.key}', f'{b.followup_what} after the refused {b.what}: {verdict}')
             elif b.must_raise:
                 bad = O.invariants(root) + O.invariants(other)
+                if isinstance(built, base.RawTreeModel):
+                    # a constructor that accepted the arguments: what it built decides
+                    try:
+                        bad += O.invariants(built, whole_store=True)
+                        toks = O.store_tokens(built.token_store)
+                        if len({id(t) for t in toks}) != len(toks):
+                            bad.append(('token-twice-in-store', 'the built model\'s store holds the same token object at two positions'))
+                    except Exception as e:  # noqa: BLE001
+                        bad.append(('built-unobservable', repr(e)))
                 d1 = before2.diff(O.Snapshot(other))
                 if bad or d1:
                     res.bad(f'not-refused:{b.key}', f'{b.what} did not raise; afterwards {bad[:2] or d1}')
@@ -549,6 +598,10 @@ def _gen_bad(g: L.G, root: Any) -> Optional[dict]:
         if dst.get('op') == 'mapset':
             op['key'] = g.meta_key()[1][:-1]
         return op
+    if x == 5 and g.p(0.3):
+        return {'f': 'bad', 'k': 'ctor-later-attached', 'sel': g.n(0, 50), 'src_other': g.p(0.5), 'num': g.pick(['7', '1 + 2', '-3', '(4)'])}
+    if x == 5 and g.p(0.15):
+        return {'f': 'bad', 'k': 'ctor-duplicate', 'which': g.n(0, 2)}
     if x == 5 and g.p(0.4):
         return {'f': 'bad', 'k': 'custom-ctor', 'how': g.pick(['from_value', 'from_children']), 'sel': g.n(0, 50), 'src_other': g.p(0.5)}
     if x == 5:
@@ -640,6 +693,11 @@ def _enum_costforms(maxlen: int):
 
 def _enum_custom_ctor():
     doc = [[['X', '2000-01-01 custom "a" "s" -3\n2000-01-02 custom "b" 5 +2 USD\n2000-01-03 balance Assets:A  -4 USD\n2000-01-04 custom "c" 7\n']]]
+    for which in range(3):
+        yield {'dirs': doc, 'dirs2': doc, 'ops': [{'f': 'bad', 'k': 'ctor-duplicate', 'which': which}]}
+    for sel in range(3):
+        for num in ('7', '1 + 2', '-3'):
+            yield {'dirs': doc, 'dirs2': doc, 'ops': [{'f': 'bad', 'k': 'ctor-later-attached', 'sel': sel, 'src_other': sel % 2 == 0, 'num': num}]}
     for how in ('from_value', 'from_children'):
         for sel in range(8):
             for src_other in (False, True):
